@@ -782,6 +782,33 @@ mod conversions {
                 } } }
             back!(u8); back!(u16); back!(u32); back!(u64); back!(usize); back!(i8); back!(i16); back!(i32); back!(i64); back!(isize);
         }
+        // a float Value read into an integer type: an error, or exactly that number - never a saturated or truncated neighbour
+        for x in [3.0f64, -3.0, 3.5, 9.223372036854775807e18, 1.8446744073709552e19, 1e19, -1e19, -9.223372036854775808e18, f64::INFINITY, f64::NAN] {
+            let v = Value::scalar(x);
+            n += 1;
+            macro_rules! fback { ($t:ty) => {
+                if let Ok(y) = from_value::<$t>(&v) {
+                    if (y as f64) != x || (y as i128) as f64 != x {
+                        return Err(format!("from_value::<{}>({x:?}) became the different number {y}", stringify!($t)));
+                    }
+                } } }
+            fback!(u8); fback!(u32); fback!(u64); fback!(i8); fback!(i32); fback!(i64);
+        }
+        // characters go through serde and come back as themselves
+        for c in ['a', ' ', 'é', 'Ω', '日', '😀'] {
+            n += 1;
+            let v = to_value(&c).map_err(|e| format!("to_value({c:?}): {e}"))?;
+            match from_value::<char>(&v) {
+                Ok(back) if back == c => {}
+                Ok(back) => return Err(format!("char {c:?} came back as {back:?}")),
+                Err(e) => return Err(format!("char {c:?} does not read back: {}", format!("{e}").lines().next().unwrap_or(""))),
+            }
+            let opt: Option<char> = Some(c);
+            let v = to_value(&opt).map_err(|e| format!("to_value(Some({c:?})): {e}"))?;
+            if from_value::<Option<char>>(&v).ok() != Some(opt) {
+                return Err(format!("Option<char> Some({c:?}) does not round trip"));
+            }
+        }
         n += derived::run()?;
         let _ = Object::new();
         Ok(n)
@@ -903,18 +930,34 @@ fn render_history(w: &serde_json::Value) -> (bool, String) {
             reference.push(row);
         }
         // all histories of length k over (template, data) calls, each call compared with the reference
-        let calls: Vec<(usize, usize)> = (0..templates.len()).flat_map(|a| (0..objs.len()).map(move |b| (a, b))).collect();
+        let with_faults = w.get("sink_faults").and_then(|x| x.as_bool()).unwrap_or(false);
+        let mut calls: Vec<(usize, usize)> = (0..templates.len()).flat_map(|a| (0..objs.len()).map(move |b| (a, b))).collect();
+        // a call index >= nplain is "render_to into a sink that fails at its first write" of call (idx - nplain): its own result
+        // is not compared, only what the NEXT calls of the history return
+        let nplain = calls.len();
+        if with_faults {
+            let extra: Vec<(usize, usize)> = calls.clone();
+            calls.extend(extra);
+        }
         let mut n = 0;
         let mut idx = vec![0usize; k];
         loop {
             for (step, &ci) in idx.iter().enumerate() {
                 let (ti, di) = calls[ci];
+                if ci >= nplain {
+                    if let Some(tp) = &compiled[ti] {
+                        let mut sink = FailAt { k: 1, calls: 0, accepted: vec![], writes_after_failure: 0, failed: false };
+                        let _ = tp.render_to(&mut sink, &objs[di]);
+                    }
+                    n += 1;
+                    continue;
+                }
                 let got = match &compiled[ti] { Some(tp) => tp.render(&objs[di]).map_err(|e| format!("{e}").lines().next().unwrap_or("").to_owned()), None => Err("parse".to_owned()) };
                 let want = &reference[ti][di];
                 let same = match (&got, want) { (Ok(a), Ok(b)) => a == b, (Err(_), Err(_)) => true, _ => false };
                 n += 1;
                 if !same {
-                    let hist: Vec<String> = idx[..=step].iter().map(|&c| format!("render(template {}, data {})", calls[c].0, calls[c].1)).collect();
+                    let hist: Vec<String> = idx[..=step].iter().map(|&c| format!("{}(template {}, data {})", if c >= nplain { "render_to-into-a-failing-sink" } else { "render" }, calls[c].0, calls[c].1)).collect();
                     return Err(format!("after the history [{}] the last call gives {:?}, a fresh parser gives {:?}", hist.join(", "), got, want));
                 }
             }
